@@ -570,14 +570,26 @@ func genC20(t *rapid.T) C20Case {
 		rapid.SampledFrom([]string{"c0", "c", "c0-x", "c1", "app", "sleep", "bash"}),
 		rapid.StringMatching(`[a-z][a-z0-9]{0,3}`),
 		rapid.StringMatching(`[a-z][a-z0-9]{0,2}-[a-z0-9]{1,2}`),
+		genBoundaryName(),
+		genBoundaryName(),
 	).Draw(t, "ctr")
 	c := C20Case{Ctr: ctr}
 	c.Opts = rapid.SampledFrom(optionSets).Draw(t, "opts")
 
 	// other container names that receive annotations
-	pool := relatedNames(ctr)
+	var pool, hot []string
+	if len(ctr) <= 8 {
+		pool = append(relatedNames(ctr), ctr+"-debug")
+	} else {
+		// long names: siblings at the length boundaries rather than every prefix
+		hot, pool = boundarySiblings(ctr)
+		pool = append(pool, hot...)
+	}
 	nrel := rapid.IntRange(0, 3).Draw(t, "nrelated")
 	others := append([]string{}, rapid.Permutation(pool).Draw(t, "related")[:min(nrel, len(pool))]...)
+	if len(hot) > 0 && rapid.IntRange(0, 2).Draw(t, "boundary") != 0 {
+		others = append(others, rapid.SampledFrom(hot).Draw(t, "sibling"))
+	}
 	if rapid.IntRange(0, 2).Draw(t, "unrelated") == 0 {
 		others = append(others, rapid.SampledFrom(unrelatedNames).Draw(t, "other"))
 	}
